@@ -72,6 +72,11 @@ OpsA4 == {"get", "set", "rev", "mul", "sum"}
 OpsArith == {"get", "set", "mul", "add", "sub", "div", "neg", "pow", "sum", "const", "rev"}
 OpsView == {"get", "set", "rev", "mul", "sum"}
 OpsHist == {"get", "set", "mul", "add", "other"}
+\* product reduction, square / reciprocal (entry points with pullbacks of their own), a scalar broadcast into a whole buffer
+OpsB1 == {"get", "prod", "sq", "recip", "mul"}
+OpsB2 == {"get", "setsc", "seta", "mul", "prod", "rev"}
+OpsB3 == {"get", "setsc", "sq", "sum", "sub"}
+OpsDrvD == {"get", "setsc", "prod", "recip", "drv"}
 OpsToggle == {"get", "mul", "add", "toggle", "const"}
 
 Spec == Init /\ [][Next]_vars
